@@ -211,19 +211,34 @@ def _alarm(_s, _f):
     raise _Timeout()
 
 
-def occurrences(r, n=6, budget=0.04):
+SKIP_OCCURRENCES = False      # set while tracing line coverage (no signals inside the tracer)
+
+
+def occurrences(r, n=6, budget=0.025):
     """first n occurrences as tuples (fields, tz tag) or 'TIMEOUT' / exception class name."""
+    if SKIP_OCCURRENCES:
+        return "TIMEOUT"
     old = signal.signal(signal.SIGALRM, _alarm)
-    signal.setitimer(signal.ITIMER_REAL, budget)
+    out = "TIMEOUT"
     try:
-        out = [(d.year, d.month, d.day, d.hour, d.minute, d.second, d.microsecond, tztag(d.tzinfo))
-               for d in itertools.islice(iter(r), n)]
-    except _Timeout:
+        try:
+            signal.setitimer(signal.ITIMER_REAL, budget)
+            out = [(d.year, d.month, d.day, d.hour, d.minute, d.second, d.microsecond, tztag(d.tzinfo))
+                   for d in itertools.islice(iter(r), n)]
+            signal.setitimer(signal.ITIMER_REAL, 0)
+        except _Timeout:
+            out = "TIMEOUT"
+        except Exception as ex:  # noqa
+            out = "EXC:" + type(ex).__name__
+    except _Timeout:          # alarm delivered inside an except clause
         out = "TIMEOUT"
-    except Exception as ex:  # noqa
-        out = "EXC:" + type(ex).__name__
     finally:
-        signal.setitimer(signal.ITIMER_REAL, 0)
+        while True:
+            try:
+                signal.setitimer(signal.ITIMER_REAL, 0)
+                break
+            except _Timeout:
+                pass
         signal.signal(signal.SIGALRM, old)
     return out
 
